@@ -231,7 +231,8 @@ Proof.
     destruct b; vm_compute; reflexivity. }
   destruct (leqb n n_neg) eqn:E2.
   { apply leqb_spec in E2. subst n. destruct args as [|[i|[|v|v k|b|]|m a|cs] [|? ?]]; try reflexivity.
-    cbn [eval_r]. rewrite leqb_refl. cbn [option_map eval_r lit_val eval_neg arith to_q]. f_equal. f_equal.
+    - destruct (Z.eqb v i64_min); reflexivity.   (* i64::MIN: the call is kept (/repo 222f71a) *)
+    - cbn [eval_r]. rewrite leqb_refl. cbn [option_map eval_r lit_val eval_neg arith to_q]. f_equal. f_equal.
       apply Qred_complete. rewrite Qred_correct. unfold Qminus, Qopp, Qplus, Qeq; cbn. ring. }
   destruct (leqb n n_eq) eqn:E3.
   { apply leqb_spec in E3. subst n.
